@@ -13,6 +13,7 @@ from engine.vtime import real_timedelta
 from harness.common import T0, SEC, mem_places, run_async, try_consume
 
 CATS = ["NORMAL", "DELAYED", "DEAD"]
+PRIO = [5]        # priority of every message of the current history (set per scenario; Redis histories vary it)
 DELAY_S = 2
 ADVANCE_S = 3
 
@@ -83,7 +84,7 @@ class RedisAdapter(Adapter):
 
     def payload_of(self, id_):
         from repid.data._key import RoutingKey
-        m = self.fr.redis_message(self.srv, RoutingKey(topic="job", queue="default", id_=id_))
+        m = self.fr.redis_message(self.srv, RoutingKey(topic="job", queue="default", priority=PRIO[0], id_=id_))
         return None if m is None else m.get("payload")
 
     async def consume(self, cat):
@@ -203,6 +204,11 @@ def run_history(S, backend="mem", steps=3, pre=1, ops_allowed=None, cancel_last=
     model = Model()
     trace = []
     S.tag("backend", backend)
+    PRIO[0] = 5
+    if backend == "redis" and ops_allowed is not None and not cancel_last:
+        # the revive histories (dead-letter, read through DEAD, requeue, ...) also run at the other priorities
+        PRIO[0] = [5, 0, 9][S.pick("priority", 3)]
+        S.tag("priority", PRIO[0])
     if backend == "rabbit":
         # RabbitMQ may deliver a published message before the publisher confirm returns, or after
         A.confirm_turns = [0, 3][S.pick("confirm_after_delivery", 2)]
@@ -266,7 +272,7 @@ def run_history(S, backend="mem", steps=3, pre=1, ops_allowed=None, cancel_last=
         import copy
         pre_obs = A.places()
         pre_pay = {i: A.payload_of(i) for i in pre_obs}
-        key = RoutingKey(topic="job", queue="default", id_=arg if arg in model.m else "mc")
+        key = RoutingKey(topic="job", queue="default", priority=PRIO[0], id_=arg if arg in model.m else "mc")
         if op in ("enqueue", "enqueue-delayed"):
             coro = A.broker.enqueue(key, "plmc", params_for(loop, op == "enqueue-delayed", 0))
             post = dict(pre_obs); post["mc"] = ["delayed" if op == "enqueue-delayed" else "waiting"]
@@ -341,7 +347,7 @@ def run_history(S, backend="mem", steps=3, pre=1, ops_allowed=None, cancel_last=
         await A.open(loop)
         nid = 0
         for _ in range(pre):
-            key = RoutingKey(topic="job", queue="default", id_=f"m{nid}")
+            key = RoutingKey(topic="job", queue="default", priority=PRIO[0], id_=f"m{nid}")
             await A.broker.enqueue(key, f"pl{nid}", params_for(loop, False, 0))
             model.m[f"m{nid}"] = {"place": "waiting", "origin": None, "payload": f"pl{nid}", "due": None}
             nid += 1
@@ -374,7 +380,7 @@ def run_history(S, backend="mem", steps=3, pre=1, ops_allowed=None, cancel_last=
                 i = f"m{nid}"
                 nid += 1
                 delayed = op == "enqueue-delayed"
-                key = RoutingKey(topic="job", queue="default", id_=i)
+                key = RoutingKey(topic="job", queue="default", priority=PRIO[0], id_=i)
                 await A.broker.enqueue(key, "pl" + i, params_for(loop, delayed, 0))
                 model.m[i] = {"place": "delayed" if delayed else "waiting", "origin": None, "payload": "pl" + i,
                               "due": now_s + DELAY_S if delayed else None}
@@ -395,7 +401,7 @@ def run_history(S, backend="mem", steps=3, pre=1, ops_allowed=None, cancel_last=
                         S.check("delivered-payload", got[1] == model.m[gid]["payload"])
                         model.m[gid].update(place="held", origin=arg)
             elif op in ("ack", "nack", "reject", "requeue", "requeue-delayed"):
-                key = RoutingKey(topic="job", queue="default", id_=arg)
+                key = RoutingKey(topic="job", queue="default", priority=PRIO[0], id_=arg)
                 v = model.m[arg]
                 if op == "ack":
                     await A.broker.ack(key)
